@@ -3,17 +3,17 @@ package main
 // C05 — Stop/Destroy terminates and flushes everything accepted before it; no descriptor leaks.
 
 import (
-	"syscall"
-	"io"
 	"bytes"
 	"context"
 	"fmt"
+	"io"
 	"os"
 	"path/filepath"
 	"sort"
 	"strings"
 	"sync"
 	"sync/atomic"
+	"syscall"
 	"time"
 
 	log "github.com/go-spring/log"
